@@ -420,3 +420,66 @@ def given_parameters_honoured(ctx, rule='C19-R7'):
                   'data maximum, undo() refuses, and the pair is no longer forward / backward',
                   instance=f"convert_kwargs: default '{key}' only when the key is absent")
     ctx.floor(rule, 'data-derived defaults stored by convert_kwargs', n, 2)
+
+
+# ---------------------------------------------------------------------------------------------- C19-R8
+def routine_defaults_and_dispatch(ctx, rule='C19-R8'):
+    """Inside the routines, a missing parameter is replaced by the documented data extremum, only when it is missing
+    (shift -> nanmax, min_val -> nanmin, max_val -> nanmax, tested with `is None`); apply_scaling hands the values to the
+    routine named by `fct`, with the parameters convert_kwargs derived for that name."""
+    fx = effects(ctx)
+    p = ctx.project
+    want = {'shift_and_scale': {'shift': 'numpy.nanmax'},
+            'minmax_scale': {'min_val': 'numpy.nanmin', 'max_val': 'numpy.nanmax'}}
+    n = 0
+    for name, defaults in want.items():
+        q = f'{MOD}.{name}'
+        f = p.func(q, rule)
+        ctx.saw(f)
+        ex, s = fx.deep(q)
+        de, ue = _exprs(fx, q, rule, many=True)
+        for prm, red in defaults.items():
+            n += 1
+            # the value the parameter has where the scaling expressions are evaluated
+            vals_seen = {x for e in list(de) + list(ue) for x in T.walk(e.value)
+                         if tag(x) == 'phi' and any(v == ('p', prm) for _, v in x[1])}
+            ok = False
+            why = f'{prm} is used as given (no default for None)'
+            for ph in vals_seen:
+                alts = dict(ph[1])
+                none_g = ('cmp', 'is', ('p', prm), T.NONE)
+                dflt = alts.get(none_g)
+                keep = alts.get(T.mk_not(none_g))
+                if dflt is None or keep != ('p', prm):
+                    why = f'{prm} is selected by {T.show(ph, maxlen=120)}: expected "the data extremum when None, else as given"'
+                    continue
+                ok = dflt == ('call', ('g', red), (V,), ())
+                why = f'a missing {prm} becomes {T.show(dflt, maxlen=80)}: expected {red.split(".")[-1]}(vals)'
+            ctx.check(ok, rule, q, f.node.name, f.loc(), f'{name}: {why}',
+                      instance=f'{name}: {prm} defaults to {red.split(".")[-1]}(vals) when None, and only then')
+    # dispatch
+    q = f'{MOD}.apply_scaling'
+    f = p.func(q, rule)
+    ctx.saw(f)
+    evs = split_alternatives(fx.deep_events(q))
+    table = {'shift-and-scale': f'{MOD}.shift_and_scale', 'minmax-scale': f'{MOD}.minmax_scale', 'step-scale': f'{MOD}.step_scale'}
+    found = set()
+    for e in evs:
+        if e.kind != 'return' or e.ctx or tag(e.value) != 'call' or tag(e.value[1]) != 'g' or e.value[1][1] not in table.values():
+            continue
+        routine = e.value[1][1]
+        names = [l[2][1] if T.is_const(l[2]) else l[3][1] for l in guard_literals(e.guard)
+                 if tag(l) == 'cmp' and l[1] == 'eq' and ('p', 'fct') in (l[2], l[3]) and (T.is_const(l[2]) or T.is_const(l[3]))]
+        n += 1
+        ok = len(names) == 1 and table.get(names[0]) == routine
+        found.add(routine)
+        ctx.check(ok, rule, q, e.node, e.loc(),
+                  f'apply_scaling hands the values to {routine.split(".")[-1]} under fct == {names}: the routine does not match '
+                  'the scaling that was asked for', instance=f'apply_scaling: {routine.split(".")[-1]} under its own name')
+        a0 = e.value[2][0] if e.value[2] else None
+        ctx.check(a0 == V, rule, q, e.node, e.loc(), f'apply_scaling scales {T.show(a0, maxlen=60)}, not the values it was given',
+                  instance=f'apply_scaling: {routine.split(".")[-1]} receives vals')
+    ctx.check(found == set(table.values()), rule, q, f.node.name, f.loc(),
+              f'apply_scaling dispatches to {sorted(x.split(".")[-1] for x in found)}: one of the three scalings is unreachable',
+              instance='apply_scaling: three routines reachable')
+    ctx.floor(rule, 'defaults and dispatch obligations', n, 6)
